@@ -751,7 +751,7 @@ class Walk:
 
     def __init__(self, rng, name, cfg=None, recv_max=None, max_pkt=None, clones=1, sei=None, weights=None,
                  allow_hold=False, allow_drop=False, allow_poll=False, nonconformant=0.0, subid_modes=None, snap=True,
-                 via_auth=None):
+                 via_auth=None, batch=0.0):
         self.rng = rng
         self.s = Sess(name, cfg)
         ps = []
@@ -779,6 +779,8 @@ class Walk:
         self.inq2 = set()
         self.held = set()
         self.subid_modes = subid_modes or ['reg', 'reg', 'unreg', 'absent']
+        self.batch = batch
+        self.in_batch = False
 
     def h(self):
         return self.rng.choice(self.s.handles)
@@ -805,8 +807,33 @@ class Walk:
 
     def step(self):
         rng, s = self.rng, self.s
+        if self.batch and not self.in_batch and rng.random() < self.batch:
+            # several requests reach the context in ONE poll of run(): the task is held while they are issued
+            opk = [k for k in ('pub0', 'pub1', 'pub2', 'sub', 'unsub', 'ping') if self.w.get(k, 0) > 0]
+            if opk:
+                self.in_batch = True
+                s.add('HOLD ctx')
+                for _ in range(rng.choice([2, 2, 3, 5])):
+                    self.step_kind(rng.choices(opk, [self.w[x] for x in opk])[0])
+                s.add('RELEASE ctx')
+                self.in_batch = False
+                return
         kinds = [k for k, v in self.w.items() if v > 0]
         k = rng.choices(kinds, [self.w[x] for x in kinds])[0]
+        self.step_kind(k)
+        if self.snap and not self.held and rng.random() < 0.06:
+            # compare the whole bookkeeping state: cancel run(), snapshot through the hook, call run() again
+            s.add('DROPFUT')
+            s.add('SNAP')
+            s.add('RUN')
+        if self.allow_poll and rng.random() < 0.2:
+            tasks = ['ctx'] + [f'op{o}' for o in s.live_ops] + [f'st{o}' for o in s.streams]
+            s.add('POLL ' + rng.choice(tasks))
+        if self.allow_drop and rng.random() < 0.12:
+            self.drop_something()
+
+    def step_kind(self, k):
+        rng, s = self.rng, self.s
         if k in ('pub0', 'pub1', 'pub2'):
             qos = int(k[3])
             f = [('p', pick_str(rng))] if rng.random() < 0.7 else []
@@ -842,16 +869,6 @@ class Walk:
                 s.rsps.discard(op)
                 s.streams.add(op)
                 s.add(f'STREAM {op}')
-        if self.snap and not self.held and rng.random() < 0.06:
-            # compare the whole bookkeeping state: cancel run(), snapshot through the hook, call run() again
-            s.add('DROPFUT')
-            s.add('SNAP')
-            s.add('RUN')
-        if self.allow_poll and rng.random() < 0.2:
-            tasks = ['ctx'] + [f'op{o}' for o in s.live_ops] + [f'st{o}' for o in s.streams]
-            s.add('POLL ' + rng.choice(tasks))
-        if self.allow_drop and rng.random() < 0.12:
-            self.drop_something()
 
     def ack(self, op, kind, pid, reason=None):
         rng, s = self.rng, self.s
@@ -944,6 +961,52 @@ def fam_C05(rng, tier):
     out = fam_walk(rng, tier, 'c05-walk', 60 if q else 1500, lambda r: r.choice([10, 30, 80]),
                    clones=lambda r: r.choice([1, 2, 3]), weights=dict(inbound=0, pubrel=0, stream=0),
                    allow_poll=True)
+    out += fam_walk(rng, tier, 'c05-batch', 30 if q else 800, lambda r: r.choice([20, 60]),
+                    clones=lambda r: r.choice([1, 2, 3]), weights=dict(inbound=0, pubrel=0, stream=0), batch=0.25)
+    # many operations outstanding at once (queued in one poll of run()), acknowledged in a chosen order: the waiter queues
+    # are long, and the acknowledged entry sits at the front, the back, or in the middle
+    for n in ([3, 4, 9, 17, 33] if q else [3, 4, 5, 8, 9, 16, 17, 32, 33, 64, 65, 129]):
+        for order in ['fwd', 'rev', 'mid', 'rnd']:
+            for mix in ['pub1', 'mixed']:
+                s = Sess(f'c05-many-{n}-{order}-{mix}')
+                s.connect()
+                s.add('HOLD ctx')
+                ops = []
+                for j in range(n):
+                    kind = 'pub1' if mix == 'pub1' else ['pub1', 'pub2', 'sub', 'unsub', 'ping'][j % 5]
+                    if kind == 'pub1':
+                        o, p = s.publish(1); ops.append((o, 'puback', p))
+                    elif kind == 'pub2':
+                        o, p = s.publish(2); ops.append((o, 'pubrec', p))
+                    elif kind == 'sub':
+                        o, p, sid = s.subscribe(); ops.append((o, 'suback', p))
+                    elif kind == 'unsub':
+                        o, p = s.unsubscribe(); ops.append((o, 'unsuback', p))
+                    else:
+                        o = s.ping(); ops.append((o, 'pingresp', None))
+                s.add('RELEASE ctx')
+                idx = list(range(n))
+                if order == 'rev':
+                    idx.reverse()
+                elif order == 'mid':
+                    idx = idx[n // 2:] + idx[:n // 2]
+                elif order == 'rnd':
+                    rng.shuffle(idx)
+                pings = [o for o, k2, _ in ops if k2 == 'pingresp']
+                for j in idx:
+                    o, kind, p = ops[j]
+                    if kind == 'puback':
+                        s.feed(m.ack('puback', p))
+                    elif kind == 'pubrec':
+                        s.feed(m.ack('pubrec', p))
+                        s.feed(m.ack('pubcomp', p))
+                    elif kind == 'suback':
+                        s.feed(m.suback(p, [0]))
+                    elif kind == 'unsuback':
+                        s.feed(m.unsuback(p, [0]))
+                    else:
+                        s.feed(m.pingresp())
+                out.append(s.script())
     # exhaustive: every acknowledgement order for a fixed set of concurrent operations
     base = [('pub1', None), ('pub2', None), ('sub', None), ('unsub', None), ('ping', None), ('ping', None)]
     perms = list(itertools.permutations(range(5)))
@@ -1017,7 +1080,7 @@ def fam_C06(rng, tier):
                     s.feed(m.ack('puback', pid2))
                     out.append(s.script())
     out += fam_walk(rng, tier, 'c06-walk', 40 if tier == 'quick' else 1000, lambda r: r.choice([20, 60]),
-                    weights=dict(sub=0, unsub=0, ping=1, inbound=0, pubrel=0, stream=0), allow_poll=True)
+                    weights=dict(sub=0, unsub=0, ping=1, inbound=0, pubrel=0, stream=0), allow_poll=True, batch=0.15)
     return out
 
 
@@ -1076,7 +1139,7 @@ def burst_scripts(prefix, tier):
 def fam_C08(rng, tier):
     return fam_walk(rng, tier, 'c08-walk', 80 if tier == 'quick' else 2500, lambda r: r.choice([15, 40, 100]),
                     weights=dict(pub0=1, pub1=1, pub2=1, sub=2, unsub=0, ping=1, ack=3, inbound=12, pubrel=5, stream=2),
-                    subid_modes=['reg', 'unreg', 'absent', 'absent', 'multi'], allow_drop=True)
+                    subid_modes=['reg', 'unreg', 'absent', 'absent', 'multi'], allow_drop=True, batch=0.08)
 
 
 def fam_C09(rng, tier):
@@ -1133,7 +1196,7 @@ def fam_C09(rng, tier):
             out.append(s.script())
     out += fam_walk(rng, tier, 'c09-mix', 30 if tier == 'quick' else 1000, 60,
                     weights=dict(pub0=0, pub1=2, pub2=4, sub=1, unsub=0, ping=0, ack=8, inbound=8, pubrel=4, stream=2),
-                    subid_modes=['reg'])
+                    subid_modes=['reg'], batch=0.1)
     return out
 
 
@@ -1143,7 +1206,7 @@ def fam_C10(rng, tier):
     for R in [1, 2, 3, None]:
         out += fam_walk(rng, tier, f'c10-R{R}', 30 if q else 600, lambda r: r.choice([30, 80, 200]),
                         recv_max=R, weights=dict(pub0=2, pub1=6, pub2=6, sub=1, unsub=1, ping=1, ack=9, inbound=1,
-                                                 pubrel=0, stream=0))
+                                                 pubrel=0, stream=0), batch=0.15)
     # fill the quota exactly, then one more, for every failing reason
     i = 0
     for R in [1, 2, 3]:
@@ -1239,7 +1302,7 @@ def fam_C11(rng, tier):
                 s.feed(m.suback(pid, [0]))
     out.append(s.script())
     out += fam_walk(rng, tier, 'c11-walk', 10 if tier == 'quick' else 200, 150, clones=3,
-                    weights=dict(inbound=0, pubrel=0, stream=0))
+                    weights=dict(inbound=0, pubrel=0, stream=0), batch=0.2)
     return out
 
 
@@ -1524,7 +1587,7 @@ def fam_C14(rng, tier):
 def fam_C15(rng, tier):
     out = fam_walk(rng, tier, 'c15-walk', 80 if tier == 'quick' else 2500, lambda r: r.choice([20, 60, 120]),
                    recv_max=lambda r: r.choice([None, 2, 3]), weights=dict(pub2=1, inbound=4, stream=2), allow_drop=True,
-                   allow_poll=True)
+                   allow_poll=True, batch=0.12)
     # every operation kind x every cancellation point
     i = 0
     # a QoS 2 publish cancelled after it queued its PUBREL (the context has not written it yet)
